@@ -171,6 +171,19 @@ def gen_play(rng, idx=0):
             # k == 3: computes only (if any)
             if len(lines) == 1 and kind != "N" and k == 3:
                 lines.append("%s expects always: t >= 0" % name)
+        if kind in ("W", "M") and rng.chance(1, 4):
+            # several event signals, a silent one declared before one that fires: each curve keeps the lane of
+            # the signals that HAVE data
+            firing = [a["name"] for a in actors if a["role"] == "r" and any(l.startswith("ev=") for l in a["feed"])]
+            silent = [(a["name"], "ev") for a in actors if a["role"] == "r" and not any(l.startswith("ev=") for l in a["feed"])]
+            silent += [(a["name"], "past") for a in actors if a["role"] == "r" and not a.get("neg")]
+            if firing and silent:
+                sa, sg = rng.pick(silent)
+                lines.append("%s watches %s %s" % (name, sa, sg))
+                w_add(sa, sg)
+                fa = rng.pick(firing)
+                lines.append("%s watches %s ev" % (name, fa))
+                w_add(fa, "ev")
         if kind in ("W", "M"):
             for _ in range(rng.range(1, 3)):
                 k = rng.below(10)
